@@ -7,9 +7,11 @@ pub mod c03;
 pub mod c04;
 pub mod c05;
 pub mod c06;
+pub mod c07;
 pub mod c08;
 pub mod c09;
 pub mod c10;
+pub mod c11;
 pub mod c12;
 pub mod c13;
 pub mod c14;
@@ -18,6 +20,7 @@ pub mod c16;
 pub mod c17;
 pub mod c18;
 pub mod c19;
+pub mod c20;
 
 pub struct Sub {
     pub name: &'static str,
@@ -34,7 +37,7 @@ pub struct Prop {
 }
 
 pub fn all() -> Vec<Prop> {
-    vec![c01::prop(), c02::prop(), c03::prop(), c04::prop(), c05::prop(), c06::prop(), c08::prop(), c09::prop(), c10::prop(), c12::prop(), c13::prop(), c14::prop(), c15::prop(), c16::prop(), c17::prop(), c18::prop(), c19::prop()]
+    vec![c01::prop(), c02::prop(), c03::prop(), c04::prop(), c05::prop(), c06::prop(), c07::prop(), c08::prop(), c09::prop(), c10::prop(), c11::prop(), c12::prop(), c13::prop(), c14::prop(), c15::prop(), c16::prop(), c17::prop(), c18::prop(), c19::prop(), c20::prop()]
 }
 
 pub fn get(id: &str) -> Option<Prop> {
@@ -54,7 +57,7 @@ pub fn replay_with<T: crate::jser::Jser>(
     }
 }
 
-/// child-process entry for C20 probes (filled in by c20.rs)
-pub fn probe_main(_args: &[String]) -> i32 {
-    2
+/// child-process entry for C20 probes
+pub fn probe_main(args: &[String]) -> i32 {
+    c20::probe_main(args)
 }
